@@ -1078,11 +1078,19 @@ impl Rt {
 
     fn check_name_internal(name: Identifier) -> Result<(), String> {
         let mut lexer = Lexer::new(name.as_str());
-        let Some((Ok(tok), _)) = lexer.next() else {
+        let Some((Ok(tok), span)) = lexer.next() else {
             return Err(format!(
                 "Name {name:?} is not a valid Roto identifier"
             ));
         };
+
+        // The lexer skips whitespace and comments, but those are not part of
+        // an identifier: the token must be the whole name.
+        if span != (0..name.as_str().len()) {
+            return Err(format!(
+                "Name {name:?} is not a valid Roto identifier"
+            ));
+        }
 
         if lexer.next().is_some() {
             return Err(format!(
